@@ -138,6 +138,23 @@ func selfTest(c *Ctx) (int, error) {
 		}
 		c.logf("refinement: %s = TRUE (what the pinned code did) is rejected by the contract clauses", dev)
 	}
+	// a Flush that skips the block when the buffer position is where the last marker left it: TLC finds
+	// the aliasing history (Write 5, Flush, Write 3, Flush with W = 2), the source of C10's "alias" cases
+	{
+		b, err := os.ReadFile(filepath.Join(c.specDir(), "MC_WriterMechSync.cfg"))
+		if err != nil {
+			return 0, err
+		}
+		res, err := c.TLC(tlc.Run{Module: "WriterMechSync", Cfg: "ST_Sync.cfg", Timeout: 5 * time.Minute,
+			Inline: map[string]string{"ST_Sync.cfg": devCfg(string(b), "DevFlushSkipsSameEnd")}})
+		if err != nil {
+			return 0, err
+		}
+		if res.Violated != "C10_FlushPoint" {
+			return 0, fmt.Errorf("WriterMechSync with DevFlushSkipsSameEnd = TRUE: expected C10_FlushPoint to fail, got %q", res.Violated)
+		}
+		c.logf("WriterMechSync: DevFlushSkipsSameEnd = TRUE violates C10_FlushPoint (positions alias after a slide)")
+	}
 	for dev, want := range map[string]string{"DevPeekWholeBuffer = FALSE": "", "DevPeekAtStreamEnd = FALSE": "", "DevResetKeepsWindow = FALSE": "", "Direct = TRUE": ""} {
 		_ = want
 		b, err := os.ReadFile(filepath.Join(c.specDir(), "MC_ReaderRefine.cfg"))
